@@ -68,6 +68,17 @@ def tower(depth, seed=0):
     return S.encode(v, True)
 
 
+def tower_seq(depth):
+    """like tower(), but every bytes field holds a SEQUENCE: the deeper object followed by one more small object
+    (a parser that re-parses the first object of a sequence doubles its work per level)"""
+    S = c14.ref_schema()
+    tail = S.encode({'@type': 'dht.ping', 'random_id': 9}, True)
+    inner = S.encode({'@type': 'dht.ping', 'random_id': 5}, True)
+    for i in range(depth):
+        inner = S.encode({'@type': 'adnl.message.query', 'query_id': format(i, '02x') * 32, 'query': inner + tail}, True)
+    return inner
+
+
 def many_objects(count):
     """a bytes field holding `count` concatenated tiny objects"""
     S = c14.ref_schema()
@@ -92,6 +103,10 @@ def shard_tl(rec, part, parts, run_parser):
             data = tower(depth)
             rec.state(data)
             run_parser(rec, 'tl:tower', f'TL nested-bytes tower of depth {depth}', lambda data=data: L.deserialize(data), len(data), 'case_tl', {'name': '@tower', 'k': depth}, 'tl:tower')
+        for depth in range(1, 31):
+            data = tower_seq(depth)
+            rec.state(data)
+            run_parser(rec, 'tl:tower', f'TL nested-bytes tower of sequences, depth {depth}', lambda data=data: L.deserialize(data), len(data), 'case_tl', {'name': '@towerseq', 'k': depth}, 'tl:towerseq')
         for count in (1, 2, 10, 100, 1000):
             data = many_objects(count)
             rec.state(data)
@@ -105,6 +120,10 @@ def case_tl(rec, name, k, run_parser):
     if name == '@tower':
         data = tower(k)
         run_parser(rec, 'tl:tower', f'TL nested-bytes tower of depth {k}', lambda: L.deserialize(data), len(data), 'case_tl', {'name': name, 'k': k}, 'tl:tower')
+        return
+    if name == '@towerseq':
+        data = tower_seq(k)
+        run_parser(rec, 'tl:tower', f'TL nested-bytes tower of sequences, depth {k}', lambda: L.deserialize(data), len(data), 'case_tl', {'name': name, 'k': k}, 'tl:towerseq')
         return
     if name == '@many':
         data = many_objects(k)
